@@ -17,6 +17,7 @@ LEVELS = {
  "C14": ("exploration", "4.C14", "Thousands of (class, parameter) cells over all 19 distributions: twin / interleaved / re-pointed instances compared draw by draw on instrumented streams (old stream frozen and watched for 200 draws), every draw support-checked, and extreme uniforms (0.0, subnormal, 2^-53, 0.5, 1-2^-53; single and adjacent pairs) spliced into every position the first draws consume; out-of-domain parameters must be refused, in-domain ones (incl. closed end points) must construct and draw. Held = nothing raised / differed / left the support, apart from the listed known findings.", "Numeric envelope stated in the evidence assumptions; +inf satisfies the statement's inequalities literally and is counted, not judged."),
  "C15": ("exploration", "4.C15", "Per (class, parameter) cell (fixed grid reaching every sampler branch + random cells): declared density/pmf compared pointwise with scipy closed forms, sign/support/normalisation checked by piecewise quadrature against closed-form masses or window sums, and a seeded sample of 20000 real draws tested with KS and chi-square under a two-stage rule (flag p<1e-5, confirm on a fresh 300000-draw sample at p<1e-7); cdf/icdf/erf_inv monotone, consistent with the density and mutually inverse. Held = no cell failed.", "Statistical: false-alarm bound 1e-12 per test; shape errors below KS distance ~0.005 are not detectable; scipy closed forms are the reference."),
  "C02": ("exploration", "4.C02", "Thousands of generated model programs on the float, int and Duration clocks are executed by the real simulator and by a 200-line reference DEVS interpreter; the handler log (tag, clock inside the handler), the outcome and pending-size effect of every scheduling request, every write of the clock (attribute tap) and the final clock are compared bit-for-bit. Held = all histories agreed.", "Programs without failing handlers under start() to the replication end; an illegal request counts as refused when it raises and the pending size is unchanged."),
+ "C03": ("exploration", "4.C03", "Generated programs x generated segmentation schedules (bounded runs exclusive/inclusive, steps, pauses forced deterministically by parking a handler at a gate while stop() is issued, cuts at/between event times, at warm-up, at/beyond the end, before the clock): after every segment the executed events, clock, state, pending size and END_REPLICATION notification are compared with the reference interpreter, and the concatenation with one uninterrupted run. Held = all segments and compositions agreed.", "Open points of the statement are accepted in every reading (listed in the evidence assumptions); pauses land between events, never inside the library's own transitions (that is C04)."),
 }
 
 def main():
